@@ -107,13 +107,14 @@ C03Pick(d, q) == \/ q <= Len(C03Routes)
 (* ---------- C04: comparisons ------------------------------------------------ *)
 C04Prims == <<JNull, JBool(TRUE), JBool(FALSE), JInt(0), F(0, 0), JInt(1), F(1, 0), JInt(-1), F(15, -1),
               JInt(100), F(1, 2), F(1000, -1), F(1, -20), F(-1, -20), JInt(2), F(25, -1),
+              JNum(1, 19, FALSE), F(1, 19), JNum(9, 18, FALSE),          \* 10^19 (beyond i64: stored as u64), 1e19, 9*10^18
               JStr(<<>>), JStr(cA), JStr(cB), JStr(<<65>>), JStr(<<233>>), JStr(<<128512>>), JStr(<<97, 98>>),
               JStr(<<49>>), JStr(<<97, 0>>)>>
 C04Structs == <<JArr(<<>>), JArr(<<JInt(1)>>), JArr(<<F(1, 0)>>), JArr(<<JInt(1), JInt(2)>>), JArr(<<JArr(<<JInt(1)>>)>>),
                 JObj(<<>>, <<>>), Obj1(cA, JInt(1)), Obj1(cA, F(1, 0)), JObj(<<cA, cB>>, <<JInt(1), JInt(2)>>),
                 JArr(<<JNull>>), Obj1(cA, JNull)>>
 C04Vals == C04Prims \o C04Structs \o <<NOTHING>>
-C04ValsQ == <<JNull, JBool(TRUE), JInt(0), JInt(1), F(1, 0), F(15, -1), F(1, -20), JInt(100), F(1, 2),
+C04ValsQ == <<JNull, JBool(TRUE), JInt(0), JInt(1), F(1, 0), F(15, -1), F(1, -20), JInt(100), F(1, 2), JNum(1, 19, FALSE), F(1, 19),
               JStr(<<>>), JStr(cA), JStr(cB), JStr(<<233>>), JStr(<<128512>>),
               JArr(<<>>), JArr(<<JInt(1)>>), JArr(<<F(1, 0)>>), JObj(<<>>, <<>>), Obj1(cA, JInt(1)), Obj1(cA, F(1, 0)), NOTHING>>
 C04V == IF Thorough THEN C04Vals ELSE C04ValsQ
@@ -165,10 +166,15 @@ C05OrAnd == FlattenSeq([i \in 1..Len(C05Core) |-> Cross2(C05Core, C05Core, LAMBD
 C05AndOr == FlattenSeq([i \in 1..Len(C05Core) |-> Cross2(C05Core, C05Core, LAMBDA y, z : LOr(<<LAnd(<<C05Core[i], y>>), z>>))])   \* a && b || c
 C05ParOr == FlattenSeq([i \in 1..Len(C05Core) |-> Cross2(C05Core, C05Core, LAMBDA y, z : LAnd(<<LParen(FALSE, LOr(<<C05Core[i], y>>)), z>>))]) \* (a || b) && c
 C05NegPar == FlattenSeq([i \in 1..Len(C05Core) |-> Cross2(C05Core, C05Core, LAMBDA y, z : LOr(<<LParen(TRUE, LAnd(<<C05Core[i], y>>)), z>>))])  \* !(a && b) || c
+\* (a op b) OP c and c OP (a op b), with and without negation of the group, for all op/OP combinations
+C05Group == FlattenSeq(Cross2(C05Core, C05Core, LAMBDA a, b :
+              <<LParen(TRUE, LOr(<<a, b>>)), LParen(FALSE, LOr(<<a, b>>)), LParen(TRUE, LAnd(<<a, b>>)), LParen(FALSE, LAnd(<<a, b>>))>>))
+C05GroupOps == FlattenSeq(Cross2(C05Group, <<TA, NA>>, LAMBDA grp, z :
+              <<LOr(<<grp, z>>), LOr(<<z, grp>>), LAnd(<<grp, z>>), LAnd(<<z, grp>>), LOr(<<z, grp, TC>>)>>))
 C05NegOr == Cross2(C05A, C05A, LAMBDA x, y : LParen(TRUE, LOr(<<x, y>>)))                                                  \* !(a || b)
 C05DblNeg == [i \in 1..Len(C05A) |-> LParen(TRUE, LParen(TRUE, C05A[i]))]                                                   \* !(!(a))
 C05Deep == Cross2(C05Core, C05Core, LAMBDA x, y : LParen(TRUE, LOr(<<LParen(TRUE, LAnd(<<x, y>>)), LParen(FALSE, LParen(TRUE, y))>>)))
-C05Lx == C05A \o C05And2 \o C05Or2 \o C05And3 \o C05OrAnd \o C05AndOr \o C05ParOr \o C05NegPar \o C05NegOr \o C05DblNeg \o C05Deep
+C05Lx == C05A \o C05GroupOps \o C05And2 \o C05Or2 \o C05And3 \o C05OrAnd \o C05AndOr \o C05ParOr \o C05NegPar \o C05NegOr \o C05DblNeg \o C05Deep
 C05Queries == [i \in 1..Len(C05Lx) |-> <<N1(cL), Child(<<SFilter(C05Lx[i])>>)>>]        \* $.l[?lx]
               \o [i \in 1..Len(C05A) |-> <<Desc(<<SFilter(C05A[i])>>)>>]                \* $..[?atom]
               \o [i \in 1..Len(C05A) |-> <<Child(<<SFilter(C05A[i])>>)>>]               \* $[?atom]
